@@ -370,6 +370,63 @@ func c16DirectReceivers(c *Case) {
 	}
 }
 
+// one source-level call site applied to receivers of different kinds in turn (whatever a site remembers about the
+// receiver it saw first is wrong for the next), and num() of long digit strings (nearest double)
+func c16SiteAndDigits(c *Case) {
+	progs := []struct{ prog, want string }{
+		{"function size(v) { return v.length() } BEGIN { print size('abc'), size([1, 2]), size({a: 1, b: 2, c: 3}), size(''), size([]), size({}) , size('é') }", "3 2 3 0 0 0 2\n"},
+		{"function size(v) { return v.length() } BEGIN { print size({a: 1}), size('abcd'), size([1]), size({a: 1, b: 2}) }", "1 4 1 2\n"},
+		{"BEGIN { for (v in [[3, 1], 'ab', {k: 1}, [2], 'xyz']) { print v.length() } }", "2\n2\n1\n1\n3\n"},
+		{"{ print $.v.length() }", "3\n2\n1\n0\n"},
+		{"function up(v) { return v.upper() } BEGIN { print up('a'), up('é'), up('B1') }", "A É B1\n"},
+		{"function has(v, x) { return v.contains(x) } BEGIN { print has([1, 2], 2), has(['a'], 'b'), has([], null) }", "true false false\n"},
+		{"function pk(v) { return v.pluck('a') } function ln(v) { return v.length() } BEGIN { print pk({a: 1, b: 2}), ln('xy'), pk({b: 1}), ln({a: 1}) }", "{\"a\": 1} 2 {\"a\": null} 1\n"},
+	}
+	in := `{"v": "abc"} {"v": [1, 2]} {"v": {"k": 1}} {"v": ""}`
+	for _, t := range progs {
+		lib := RunLib(t.prog, []InFile{{Name: "in", Data: []byte(in)}}, nil, RunOpts{Budget: 100000})
+		c.NonTrivial("site:" + t.prog)
+		c.Count("one_site_many_receiver_kinds")
+		if lib.Class != "ok" || string(lib.Stdout) != t.want {
+			c.Violation(fmt.Sprintf("one call site, receivers of several kinds: want %q, got %s (%s %s) %q | %s", t.want, lib.Class, lib.Msg, lib.PanicVal, clip(string(lib.Stdout), 80), t.prog), nil, map[string]any{"program": t.prog})
+			continue
+		}
+		c.Held()
+	}
+	// a site that first saw a method of one kind and then gets a receiver without it: an ordinary runtime error, never a crash
+	for _, prog := range []string{
+		"function pk(v) { return v.pluck('a') } BEGIN { print pk({a: 1}); print pk('str') }", "function srt(v) { return v.sort() } BEGIN { print srt([2, 1]); print srt({a: 1}) }",
+		"function sp(v) { return v.split(',') } BEGIN { print sp('a,b'); print sp([1]) }", "function fl(v) { return v.floor() } BEGIN { print fl(2.5); print fl('2.5') }",
+	} {
+		lib := RunLib(prog, nil, nil, RunOpts{Budget: 100000})
+		c.NonTrivial("site-error:" + prog)
+		if lib.Class != "runtime" || !strings.Contains(string(lib.Stdout), "\n") || strings.Count(string(lib.Stdout), "\n") != 1 {
+			c.Violation(fmt.Sprintf("a method a receiver kind does not have, at a site that had it before: want one output line and a runtime error, got %s (%s %s) %q | %s", lib.Class, lib.Msg, lib.PanicVal, clip(string(lib.Stdout), 80), prog), nil, map[string]any{"program": prog})
+			continue
+		}
+		c.Held()
+	}
+	rng := c.Rng
+	for k := 0; k < 60; k++ {
+		n := 15 + rng.IntN(14)
+		var sb strings.Builder
+		sb.WriteByte(byte('1' + rng.IntN(9)))
+		for i := 1; i < n; i++ {
+			sb.WriteByte(byte('0' + rng.IntN(10)))
+		}
+		ds := sb.String()
+		want, _ := strconv.ParseFloat(ds, 64)
+		lib := RunLib("{ print num($.s) == $.n, num($.s) - $.n }", []InFile{{Name: "in", Data: []byte(`{"s": "` + ds + `", "n": ` + ds + `}`)}}, nil, RunOpts{})
+		c.Count("law_runs:num-of-long-digit-strings")
+		c.NonTrivial("digits:" + ds)
+		if lib.Class != "ok" || string(lib.Stdout) != "true 0\n" {
+			c.Violation(fmt.Sprintf("num(%q) is not the nearest double %v (the same digits read as a JSON number): %s %q", ds, want, lib.Class, clip(string(lib.Stdout), 60)), nil, map[string]any{"digits": ds})
+			continue
+		}
+		c.Held()
+	}
+}
+
 // pluck over several records in one run, each result modified afterwards: every result is a new object whose
 // absent keys are null, whatever was stored into earlier results
 func c16PluckHistory(c *Case) {
@@ -457,6 +514,9 @@ func c16Run(c *Case) {
 		if c.Idx == 0 {
 			c16DirectReceivers(c)
 		}
+		if c.Idx == 1 {
+			c16SiteAndDigits(c)
+		}
 	case c.Idx < nm+ns:
 		c16Sampled(c)
 		if c.Idx == nm {
@@ -471,7 +531,7 @@ func c16Run(c *Case) {
 func init() {
 	register(&Prop{
 		ID: "C16", Level: "exploration",
-		Rule:          "enumerated: 13 methods + 3 builtins x 32 receiver values (all 10 kinds) x 9 argument lists (0-3 arguments of several kinds): result vs reference, and never a panic; 14 methods called directly on 23 receiver expressions that were never stored (a character of a string, a call result, a parenthesised expression, a literal, a method result): never a crash, closed-form results for the string cases; sampled: receivers/arguments supplied through the input document so every UTF-8 string is reachable (multi-byte, separators at the ends / repeated / overlapping / empty / longer than the subject; doubles at and around halves, beyond 2^53, tiny; objects and key lists with present/absent/repeated keys and the method names length/pluck; numeric and non-numeric spellings for num) compared with reference functions; algebraic laws checked on the implementation's output alone (split pieces/join, floor<=x<=ceil, round half away, case idempotence, byte length, pluck key set (also for keys with dots over nested objects: a key names an own key, never a path) and immutability, also over 2-5 records in one run whose results are each modified after the call, num(str(x))==x). Non-trivial = non-ASCII / separator at an end or empty / non-integral number / absent key; distinct by call+document.",
+		Rule:          "enumerated: 13 methods + 3 builtins x 32 receiver values (all 10 kinds) x 9 argument lists (0-3 arguments of several kinds): result vs reference, and never a panic; 14 methods called directly on 23 receiver expressions that were never stored (a character of a string, a call result, a parenthesised expression, a literal, a method result): never a crash, closed-form results for the string cases; 11 programs applying one call site to receivers of several kinds in turn; num() of 60 digit strings of 15-28 digits against the same digits read as a JSON number; sampled: receivers/arguments supplied through the input document so every UTF-8 string is reachable (multi-byte, separators at the ends / repeated / overlapping / empty / longer than the subject; doubles at and around halves, beyond 2^53, tiny; objects and key lists with present/absent/repeated keys and the method names length/pluck; numeric and non-numeric spellings for num) compared with reference functions; algebraic laws checked on the implementation's output alone (split pieces/join, floor<=x<=ceil, round half away, case idempotence, byte length, pluck key set (also for keys with dots over nested objects: a key names an own key, never a path) and immutability, also over 2-5 records in one run whose results are each modified after the call, num(str(x))==x). Non-trivial = non-ASCII / separator at an end or empty / non-integral number / absent key; distinct by call+document.",
 		NumCases:      c16Cases,
 		Run:           c16Run,
 		MinConclusive: func(tier string) int { return 5000 },
